@@ -307,3 +307,37 @@ Proof.
   split; [apply gap_loop_exact; auto|].
   intros g Hg. destruct (inv_gaps _ I ti g Hg) as (A & _ & C & _). auto.
 Qed.
+
+(* ---------------------------------------------------------------- non-vacuity of the hypotheses used above *)
+Example partition_hypotheses_satisfiable :
+  wf_cmds ex_quirk /\ guard ex_quirk /\ lost ex_quirk = [(10, 2)] /\
+  psize (final ex_quirk) = 18 /\ payload (final ex_quirk) = 15 /\ free_bytes (final ex_quirk) = 1 /\ total (lost ex_quirk) = 2.
+Proof.
+  split; [apply wf_cmds_by_length; reflexivity|]. split; [unfold guard; vm_compute; discriminate|].
+  repeat split; vm_compute; reflexivity.
+Qed.
+
+(* a state/command pair to which C19_fresh_area_covered applies with a non-empty fresh area: 1 byte, then 8 bytes *)
+Example fresh_area_hypotheses_satisfiable :
+  exists p d s p' off, Inv p /\ wf_cmd d s /\ cp_add p d s = (p', Ok off) /\ psize p < psize p' /\
+    concat (gaps p') = [(1, 1); (2, 2); (4, 4)].
+Proof.
+  exists (fst (cp_add cp_init [9] 1)), [1; 2; 3; 4; 5; 6; 7; 8], 8.
+  eexists. exists 8. split.
+  - destruct (cp_add_step cp_init [9] 1 (fst (cp_add cp_init [9] 1)) (snd (cp_add cp_init [9] 1)) init_inv) as (I & _).
+    + unfold wf_cmd; simpl; lia.
+    + destruct (cp_add cp_init [9] 1); reflexivity.
+    + vm_compute. discriminate.
+    + exact I.
+  - split; [unfold wf_cmd; simpl; lia|]. split; [vm_compute; reflexivity|]. split; vm_compute; reflexivity.
+Qed.
+
+(* the reachable-state hypotheses of C19_gap_loop_exact with a non-empty stack: before the last add of ex_quirk's prefix *)
+Example gap_loop_hypotheses_satisfiable :
+  let cmds := firstn 5 ex_quirk in
+  wf_cmds cmds /\ guard cmds /\ nth 1 (gaps (final cmds)) [] = [(10, 2); (2, 2)] /\
+  gap_loop (6 - 1) 1 2 (gaps (final cmds)) None = ([[(9, 1)]; []; []; []; []; []; []], Some 2).
+Proof.
+  split; [apply wf_cmds_by_length; reflexivity|]. split; [unfold guard; vm_compute; discriminate|].
+  split; vm_compute; reflexivity.
+Qed.
